@@ -265,6 +265,9 @@ func c21Errs(err error) []c21Err {
 		return nil
 	}
 	if el, ok := err.(goscanner.ErrorList); ok {
+		if len(el) == 0 {
+			return []c21Err{{-1, -1, -1, "non-nil but empty ErrorList"}}
+		}
 		out := make([]c21Err, len(el))
 		for i, e := range el {
 			out[i] = c21Err{e.Pos.Offset, e.Pos.Line, e.Pos.Column, e.Pos.Filename + "|" + e.Msg}
@@ -405,11 +408,15 @@ func c21Exec(ctx *vk.Ctx, c c21Case) error {
 		f, e = go123.ParseFile(gotoken.NewFileSet(), c21Name, src, go123.Mode(mode))
 		rb = c21MkOut(f, nil, e)
 	}
+	what := "ParseFile vs ParseFile2"
+	if c.Expr {
+		what = "ParseExprFrom vs ParseExprFrom2"
+	}
 	if d := c21SameOut(f1, f2); d != "" {
-		return fmt.Errorf("ParseFile vs ParseFile2(nil callback) differ: %s\nsrc: %q", d, c21Clip(src))
+		return fmt.Errorf("%s(nil callback) differ: %s\nsrc: %q", what, d, c21Clip(src))
 	}
 	if d := c21SameOut(f1, f3); d != "" {
-		return fmt.Errorf("ParseFile vs ParseFile2(counting callback) differ: %s\nsrc: %q", d, c21Clip(src))
+		return fmt.Errorf("%s(counting callback) differ: %s\nsrc: %q", what, d, c21Clip(src))
 	}
 	// callback stream vs independent scanner
 	// The documented contract is "called at each new token". Today parser.init
